@@ -163,3 +163,40 @@ static std::string h_tagr(const std::string& arg)
 	return out;
 }
 HANDLER("tagr", h_tagr);
+
+// tagl <entry>*   whole lines with a known meaning, through MML_Input::read_line:
+//   H:<key>:<blanks>:<value>   the line  #<key><blanks><value>
+//   T:<key>:<w1>,<w2>,..|.     the line  @<key> w1 w2 ..      (`.` = no words)
+//   K:<w1>,<w2>,..|.           the continuation line  ` w1 w2 ..`
+static std::string words_of(const std::string& f)
+{
+	std::string out;
+	if(f == ".") return out;
+	size_t p = 0;
+	while(true)
+	{
+		size_t q = f.find(',', p);
+		std::string w = str_of_hex(f.substr(p, q == std::string::npos ? std::string::npos : q - p));
+		if(!out.empty()) out += " ";
+		out += w;
+		if(q == std::string::npos) break;
+		p = q + 1;
+	}
+	return out;
+}
+static std::string h_tagl(const std::string& arg)
+{
+	std::string ops;
+	for(const std::string& e : split_ws(arg))
+	{
+		std::vector<std::string> f = split_colon(e);
+		std::string line;
+		if(f.at(0) == "H") line = "#" + str_of_hex(f.at(1)) + str_of_hex(f.at(2)) + str_of_hex(f.at(3));
+		else if(f.at(0) == "T") line = "@" + str_of_hex(f.at(1)) + " " + words_of(f.at(2));
+		else if(f.at(0) == "K") line = " " + words_of(f.at(1));
+		else return "bad-request";
+		ops += (ops.empty() ? "M:" : " M:") + hx(line);
+	}
+	return h_tags(ops);
+}
+HANDLER("tagl", h_tagl);
